@@ -67,6 +67,7 @@ def fdeco(fn):
         return fn(*a, **k)
     return w
 GLOB = 41
+PV = 'global-pv'
 '''
 BASES = {"none": "", "one": "G1", "two": "G0, G1", "inh": "D1", "diamond": "D1, D2", "wm": "WM"}
 META = {"implicit": "", "explicit": "metaclass=M0"}
@@ -91,6 +92,11 @@ MEMBERS = {
     "lam": "    lm = lambda self, q=2: q * 3\n",
     "forloop": "    acc = []\n    for e in (1, 2):\n        acc.append(e)\n",
     "globuse": "    gg = GLOB + 1\n    def useg(self):\n        return GLOB + self.gg\n",
+    # reads a parameter of the enclosing function (a module global in the other placements)
+    "paramuse": "    pu = PV\n    pu2 = [PV for _e in range(1)]\n",
+    # reads a global before binding the same name in the class body (LOAD_NAME falls back to the
+    # global even when the enclosing function has a local of that spelling)
+    "readbefore": "    GLOB = GLOB + 1\n    PV = PV\n",
     "deco_method": "    @fdeco\n    def dm(self, a=1):\n        return a * 2\n",
 }
 PLACEMENTS = ("module", "func", "cls", "cls_in_func", "global_decl", "closure")
@@ -102,11 +108,13 @@ def place(cls_src, where):
     if where == "module":
         return cls_src + "\nRES = K\nWHERE = 'K' in globals()\n"
     if where == "func":
-        return "def mk():\n" + ind(cls_src, 1) + "\n    return K\nRES = mk()\nLEAK = 'K' in globals()\n"
+        return ("def mk(PV='param-pv'):\n    GLOB = 'local-shadow'\n" + ind(cls_src, 1)
+                + "\n    return K\nRES = mk()\nLEAK = 'K' in globals()\n")
     if where == "cls":
         return "class Outer:\n" + ind(cls_src, 1) + "\nRES = Outer.K\nWHERE = 'K' in vars(Outer)\nLEAK = 'K' in globals()\n"
     if where == "cls_in_func":
-        return "def mk():\n    class Outer:\n" + ind(cls_src, 2) + "\n    return Outer.K\nRES = mk()\nLEAK = 'K' in globals()\n"
+        return ("def mk(PV='param-pv'):\n    GLOB = 'local-shadow'\n    class Outer:\n" + ind(cls_src, 2)
+                + "\n    return Outer.K\nRES = mk()\nLEAK = 'K' in globals()\n")
     if where == "global_decl":
         return "def mk():\n    global K\n" + ind(cls_src, 1) + "\nmk()\nRES = K\n"
     if where == "closure":
@@ -151,7 +159,8 @@ def inspect_cls(ns):
             calls["p_kind"] = type(vars(K).get("p", K.__mro__[1].__dict__.get("p"))).__name__
         except Exception as e:
             calls["p"] = "EXC " + type(e).__name__
-    for a in ("i", "made_by", "tag", "gv", "d1", "order", "x", "y", "n", "w", "ys", "acc", "sub", "wrapped", "gg"):
+    for a in ("i", "made_by", "tag", "gv", "d1", "order", "x", "y", "n", "w", "ys", "acc", "sub", "wrapped", "gg",
+              "pu", "pu2", "GLOB", "PV"):
         if hasattr(inst, a):
             calls["a_" + a] = canon(getattr(inst, a))
     if hasattr(K, "In"):
@@ -177,9 +186,22 @@ def inspect_cls(ns):
     return out
 
 
+def _quiet_hook(*a):
+    pass
+
+
 def check_case(part, case, cfgs):
+    import os
     import sys
-    sys.unraisablehook = lambda *a: None   # deep recursion inside the call script (both sides) is not our output
+    if not getattr(sys, "_olverif_quiet", False):
+        # deep recursion inside the call script (identical on both sides) makes the interpreter
+        # print "Exception ignored ..." lines from worker processes: not our output
+        sys._olverif_quiet = True
+        sys.unraisablehook = _quiet_hook
+        try:
+            sys.stderr = open(os.devnull, "w")
+        except OSError:
+            pass
     bk, mk, kk, dk, ms, where = case
     src = PRE + place(class_source(bk, mk, kk, dk, ms), where)
     try:
@@ -294,13 +316,13 @@ def run(report):
     quick = report.tier == "quick"
     report.rule = RULE
     ns = env.NPROC * 4
-    items = [(_sweep_shard, (i, ns, 6 if quick else 1, not quick)) for i in range(ns)]
+    items = [(_sweep_shard, (i, ns, 9 if quick else 1, not quick)) for i in range(ns)]
     items += [(_drawn_shard, (env.sub_seed(report.seed, "C12", i), 40 if quick else 1500)) for i in range(env.NPROC)]
     for part in env.pmap(_callf, items):
         report.absorb(part)
     report.exhaustive = not quick
     report.notes.append("thorough: the skeleton product x member sets of size <= 2 is enumerated completely "
-                        "(exhaustive:true); quick: all size-0/1 sets and every 6th size-2 set")
+                        "(exhaustive:true); quick: all size-0/1 sets and every 9th size-2 set")
     for s in sorted(open_switches('C12')):
         report.exclusions.setdefault(s, 0)
     report.assumptions += ["class-creation hooks that look at the namespace (__prepare__, metaclass __new__ reading the dict, "
